@@ -59,6 +59,12 @@ impl Chunk {
     &self.instructions
   }
 
+  /// The number of constants in this chunk
+  #[cfg(feature = "verif")]
+  pub fn verif_constant_count(&self) -> usize {
+    self.constants.len()
+  }
+
   /// Retrieve a constant in the constants table at
   /// the provided offset
   #[inline]
